@@ -55,6 +55,9 @@ func alphabet() []treefs.Op {
 		// copies ONTO paths that other operations write (same and different content length)
 		treefs.Op{Kind: "CopyFile", P: "f", Q: "d/f"}, treefs.Op{Kind: "CopyFile", P: "d/f", Q: "f"}, treefs.Op{Kind: "Copy", P: "d/g", Q: "x/y"})
 	w("f", "N1-longer")
+	// mutations through child views and with non-canonical spellings (the cache sees "/d/h", "./f")
+	a = append(a, treefs.Op{Kind: "WriteFile", P: "./f", Data: "N5"}, treefs.Op{Kind: "WriteFile", P: "h", Data: "N6", View: []string{"d"}},
+		treefs.Op{Kind: "Remove", P: "f", View: []string{"d"}}, treefs.Op{Kind: "MkdirAll", P: "k", View: []string{"x"}})
 	a = append(a, treefs.Op{Kind: "Commit"})
 	return a
 }
@@ -187,6 +190,13 @@ func execute(cs Case, wantC06, wantC07 bool) runOut {
 	dirty := false
 	hist := append(append([]treefs.Op{}, cs.History...), treefs.Op{Kind: "Commit"}, treefs.Op{Kind: "Commit"})
 	nCommit := 0
+	if wantC07 {
+		// the first reads happen before anything was written (negative answers may be remembered)
+		readsAgree(w.cache, ov, rm, modelOf(remotes[cs.Remote]), nil, nil)
+		if n := ov.Lookup([]string{"d"}); n != nil && n.Dir {
+			readsAgree(w.cache, ov, rm, modelOf(remotes[cs.Remote]), []string{"d"}, nil)
+		}
+	}
 	for i, op := range hist {
 		final := i >= len(cs.History)
 		if op.Kind == "Commit" {
@@ -293,7 +303,13 @@ func execute(cs Case, wantC06, wantC07 bool) runOut {
 		}
 	judged:
 		if i != len(cs.History)-1 {
-			continue // every prefix is enumerated as a history of its own: check only at the end
+			// every prefix is enumerated as a history of its own, so the oracles run at the end - but
+			// the READS are issued after every step: reading is part of the history (a cache may
+			// remember answers), only their judgement is left to the prefix's own run
+			if wantC07 {
+				readsAgree(w.cache, ov, rm, modelOf(remotes[cs.Remote]), nil, cs.History[:i+1])
+			}
+			continue
 		}
 		// C06 (i): the remote is not modified before Commit
 		if wantC06 {
@@ -414,7 +430,31 @@ func readsAgree(cache filesystem.Filespace, ov, rm, r0 *treefs.Node, view []stri
 // rootCause maps a read mismatch to one of the recorded design defects of the cache when -
 // and only when - the history exhibits that defect's trigger for this very path; otherwise ""
 // (the finding keeps its symptom signature and is reported as a new violation).
+// absOps rewrites a history into canonical absolute paths (view chains and spellings resolved),
+// which is what the root-cause predicates reason about.
+func absOps(hist []treefs.Op) []treefs.Op {
+	out := make([]treefs.Op, len(hist))
+	for i, o := range hist {
+		root, _ := treefs.ViewRoot(o.View)
+		abs := func(p string) string {
+			if p == "" && o.Kind == "Commit" {
+				return p
+			}
+			s, _ := treefs.Norm(p)
+			return strings.Join(append(append([]string{}, root...), s...), "/")
+		}
+		o.P = abs(o.P)
+		if o.Q != "" {
+			o.Q = abs(o.Q)
+		}
+		o.View = nil
+		out[i] = o
+	}
+	return out
+}
+
 func rootCause(hist []treefs.Op, ov, rm, r0 *treefs.Node, segs []string, state string, m *fsx.Mismatch, r fsx.Result, e treefs.Expect) string {
+	hist = absOps(hist)
 	p := strings.Join(segs, "/")
 	under := func(a, b string) bool { return b == "" || b == "." || a == b || strings.HasPrefix(a, b+"/") }
 	shown := m.Kind == "answered-true" || m.Kind == "succeeded-on-invisible-node"
@@ -642,6 +682,7 @@ func hasDup(l []string) bool {
 // actual remote tree: which path kind differs and which operation of the history last
 // addressed that path.
 func classifyDiff(want, got map[string]string, hist []treefs.Op, r0 map[string]string, everRemote map[string]map[string]bool) (string, string) {
+	hist = absOps(hist)
 	var paths []string
 	for p := range want {
 		if got[p] != want[p] {
